@@ -712,6 +712,8 @@ fn run_check_inner(cfg: &CheckCfg) -> CheckResult {
             "traversals": tot.get("traversals").copied().unwrap_or(0),
             "distinct_states": state_sigs.len(),
             "distinct_interleavings": inter_sigs.len(),
+            "distinct_states_measure": "64-bit shape signatures: of every decoded image (table size, chain-length histogram, live and free slots per size class, offset-width class of both record files) and of the logical end state of every map (entry count, multiset of key length / value slot class)",
+            "distinct_interleavings_measure": "hash of the sequence of handle ids (logical clients) that acted, per episode",
             "episode_digest": episode_digest,
             "runs_per_hour": if explore_wall > 0.0 { (episodes as f64 / explore_wall * 3600.0) as u64 } else { 0 },
             "workers": w,
